@@ -168,6 +168,10 @@ def run_case(case):
                 x0.extra = dict(x0.extra, mo_spin=labels[rng.permutation(len(labels))])
                 klass += "+ungrouped_mospin"
                 counters["wfn_ungrouped_mospin"] += 1
+            if case["i"] % 5 == 2:
+                # text outside ASCII in the strings a format carries (a Greek letter, a micro sign, an accented name)
+                x0.title = f"α-pinene, 1.5 µs, Å-scale, señor {case['i']}"
+                klass += "+non-ascii"
             if x0.atcoords is not None and x0.mo is None and case["i"] % 3 == 1:
                 # numerical noise around zero and signed zeros (planar / symmetric geometries out of an optimiser)
                 xyz = x0.atcoords.copy()
